@@ -809,6 +809,19 @@ func (eng *Engine) VerifyFunc(fn *ssa.Function, fc *FuncContract) (em *Emitter, 
 			gv := ex.readRoot(st, &Ptr{Root: rGlobal, Glob: g, RootT: types.Typ[types.Bool], Elem: types.Typ[types.Bool]})
 			em.emit("(assert (not " + gv.E + ")) ; package not yet initialised")
 		}
+		// package-level variables hold their zero values before the initialiser runs
+		var names []string
+		for n, m := range fn.Pkg.Members {
+			if _, ok := m.(*ssa.Global); ok && n != "init$guard" {
+				names = append(names, n)
+			}
+		}
+		sort.Strings(names)
+		for _, n := range names {
+			g := fn.Pkg.Members[n].(*ssa.Global)
+			t := deref(g.Type())
+			em.heapSet(st, ex.regGlobal(g), em.sortOf(t), em.zero(t).E)
+		}
 	}
 	for _, p := range fn.Params {
 		v := ex.freshVal("p_"+p.Name(), p.Type())
@@ -887,7 +900,14 @@ func (eng *Engine) VerifyFunc(fn *ssa.Function, fc *FuncContract) (em *Emitter, 
 			if lab == "" {
 				lab = fmt.Sprintf("ens%d", i+1)
 			}
-			ex.obligeLabel("post", r.pc, penv.evalBool(cl.Expr), fn.Pos(), fmt.Sprintf("%s@ret%d", lab, ri+1))
+			parts := splitConj(cl.Expr)
+			for pi, pe := range parts {
+				l := fmt.Sprintf("%s@ret%d", lab, ri+1)
+				if len(parts) > 1 {
+					l = fmt.Sprintf("%s.%d@ret%d", lab, pi+1, ri+1)
+				}
+				ex.obligeLabel("post", r.pc, penv.evalBool(pe), fn.Pos(), l)
+			}
 		}
 	}
 	return em, nil
@@ -932,4 +952,25 @@ func (ex *Exec) regObject(t types.Type) []string {
 		return []string{ex.regElem(u.Elem())}
 	}
 	return []string{ex.regBox(t)}
+}
+
+// splitConj splits a top-level conjunction (also under a common implication a ==> (b && c)) into separate goals.
+func splitConj(e CExpr) []CExpr {
+	switch x := e.(type) {
+	case *CBinary:
+		if x.Op == "&&" {
+			return append(splitConj(x.X), splitConj(x.Y)...)
+		}
+		if x.Op == "==>" {
+			rs := splitConj(x.Y)
+			if len(rs) > 1 {
+				var out []CExpr
+				for _, r := range rs {
+					out = append(out, &CBinary{Op: "==>", X: x.X, Y: r})
+				}
+				return out
+			}
+		}
+	}
+	return []CExpr{e}
 }
